@@ -181,3 +181,48 @@ def compact_tables(ph):
     perms = prim.atomic_permutations
     s2pp, nsym = get_nsym_list_and_s2pp(prim.s2p_map, prim.p2p_map, perms)
     return np.array(prim.p2s_map, dtype=int), np.array(s2pp, dtype=int), np.array(nsym, dtype=int), np.array(perms, dtype=int)
+
+
+# --------------------------------------------------------------------------
+# the same crystal in another description (metamorphic inputs)
+# --------------------------------------------------------------------------
+
+UNIMODULAR = {
+    "swap12": [[0, 1, 0], [1, 0, 0], [0, 0, 1]],        # det -1: left-handed if the cell was right-handed
+    "negate3": [[1, 0, 0], [0, 1, 0], [0, 0, -1]],      # det -1
+    "invert": [[-1, 0, 0], [0, -1, 0], [0, 0, -1]],     # det -1
+    "shear": [[1, 1, 0], [0, 1, 0], [0, 0, 1]],         # det +1, non-reduced basis
+    "cyclic": [[0, 1, 0], [0, 0, 1], [1, 0, 0]],        # det +1
+}
+
+
+def relabelled_cell(cell, M):
+    """The same crystal with lattice vectors a'_i = sum_j M_ij a_j (M integer, det +-1; rows of `cell.cell` are the
+    vectors).  Returns (cell', qmap, smap): reduced positions x' = M^-T x (wrapped into [0,1)), a reduced q-point q of the
+    old description is q' = qmap(q) = M q in the new one (same Cartesian q), and a supercell matrix S (phonopy's column
+    convention, A_s = A S with the lattice vectors as columns of A) becomes S' = smap(S) = M^-T S M^T: the same supercell
+    lattice described by correspondingly relabelled supercell vectors, det S' = det S > 0.  Masses, symbols, magnetic moments are kept.
+    With det M = -1 a right-handed cell becomes left-handed (negative `PhonopyAtoms.volume`): every physical result
+    (spectrum at corresponding q, thermal properties, force-constant recovery ...) must be the same."""
+    from phonopy.structure.atoms import PhonopyAtoms
+
+    M = np.array(M, dtype=int)
+    d = int(round(np.linalg.det(M)))
+    assert abs(d) == 1, "M must be unimodular"
+    Minv = np.rint(np.linalg.inv(M)).astype(int)
+    assert (Minv @ M == np.eye(3, dtype=int)).all()
+    lat = M @ np.array(cell.cell, dtype="double")
+    pos = np.array(cell.scaled_positions, dtype="double") @ Minv          # x' = M^-T x  <=>  x'^T = x^T M^-1
+    pos = pos - np.floor(pos + 1e-12)
+    kw = dict(symbols=list(cell.symbols), cell=lat, scaled_positions=pos, masses=None if cell.masses is None else list(cell.masses))
+    if getattr(cell, "magnetic_moments", None) is not None:
+        kw["magnetic_moments"] = cell.magnetic_moments
+    new = PhonopyAtoms(**kw)
+
+    def qmap(q):
+        return np.array(q, dtype="double") @ M.T                        # q'_i = sum_j M_ij q_j
+
+    def smap(S):
+        return Minv.T @ np.array(S, dtype=int) @ M.T
+
+    return new, qmap, smap
